@@ -1,13 +1,111 @@
 /-
-C03 — no argument can make the library panic.  (first version: inventory of partial operations; the Go-shaped
-model with explicit panics follows in Model/GoShaped.lean)
+C03 — no argument can make the library panic.
+
+Layer G (Model/GoShaped.lean) transliterates the token cursor and the recursive-descent parser with the two partial
+operations of that code made explicit: slice indexing `t.tokens[t.index]` and the field access through the possibly-nil
+pointer that `peek()` returns.  The theorems say that, with the guards written where the source has them, `panic` is
+unreachable for EVERY token sequence and every byte string.  The tie to the source is (i) the driver's `Q` operation
+(outcome class of this model vs the implementation on the systematic malformed stream) and (ii) the census of partial
+operations regenerated from the source on every run, compared below with the inventory this file accounts for.
 -/
+import SpdxVerif.Lemmas.GoShaped
 import SpdxVerif.Spec.Census
 namespace Spdx.C03
+
+/-- the Go-shaped parser returns normally on every token sequence -/
+theorem g_parseTokens_never_panics (toks : List Tok) : G.parseTokens toks ≠ .panic := by
+  obtain ⟨r, h⟩ := G.parseTokens_ok toks
+  rw [h]; intro hc; cases hc
+
+/-- … and so does the whole Go-shaped `parse`, on every byte string -/
+theorem g_parse_never_panics (s : Bytes) : G.parse s ≠ .panic := by
+  obtain ⟨r, h⟩ := G.parse_ok s
+  rw [h]; intro hc; cases hc
+
+/-- each cursor-reading helper on its own, for every cursor position (including past the end) -/
+theorem g_helpers_never_panic (t : G.TS) (o : Op) :
+    G.parseOperator o t ≠ .panic ∧ G.parseWith t ≠ .panic ∧ G.parseLicense t ≠ .panic ∧ G.parseLicenseRef t ≠ .panic := by
+  obtain ⟨_, h1⟩ := G.parseOperator_ok o t
+  obtain ⟨_, h2⟩ := G.parseWith_ok t
+  obtain ⟨_, h3⟩ := G.parseLicense_ok t
+  obtain ⟨_, h4⟩ := G.parseLicenseRef_ok t
+  rw [h1, h2, h3, h4]
+  refine ⟨?_, ?_, ?_, ?_⟩ <;> (intro h; cases h)
 
 /-- the model's entry points are total functions: every argument yields a result or an error value -/
 theorem api_total (e : Bytes) (l : List Bytes) :
     (∃ b, satisfies e l = .ok b) ∨ (∃ err, satisfies e l = .error err) := by
   cases satisfies e l <;> simp
+
+/-! ### the layer can express the defect: without the nil guard, the end of the token stream IS a panic -/
+
+/-- `parseOperator` as it was before the repair: `token.role` read without `token != nil` -/
+def parseOperatorUnguarded (o : Op) (t : G.TS) : G.Out (Bool × G.TS) :=
+  (G.peek t).bind fun tok => (G.deref tok).bind fun x => if x = .op o then .ok (true, G.next t) else .ok (false, t)
+
+example : (match parseOperatorUnguarded .lparen ⟨[], 0, false⟩ with | .panic => true | .ok _ => false) = true := by decide
+example : (match G.parseOperator .lparen ⟨[], 0, false⟩ with | .panic => true | .ok _ => false) = false := by decide
+-- "(" : the unrepaired parser read past the end here
+example : (match G.parse [40] with | .ok none => true | _ => false) = true := by decide +kernel
+-- "MIT WITH", "DocumentRef-a", "DocumentRef-a:"
+example : (match G.parse [77,73,84,32,87,73,84,72] with | .ok none => true | _ => false) = true := by decide +kernel
+example : (match G.parse [68,111,99,117,109,101,110,116,82,101,102,45,97] with | .ok none => true | _ => false) = true := by decide +kernel
+example : (match G.parse [68,111,99,117,109,101,110,116,82,101,102,45,97,58] with | .ok none => true | _ => false) = true := by decide +kernel
+
+/-! ### inventory of partial operations in the source (regenerated census) -/
+
+def name (s : String) : Bytes := s.toUTF8.toList.map (·.toNat)
+
+/-- functions of package spdxexp that contain an index expression, with the number of such expressions.
+    Each is accounted for: `peek` (guarded by `hasMore`, layer G); map reads/writes in `sameLicenseGroup`,
+    `compareGT/LT/EQ`, `removeDuplicateStrings` (never panic); `nodes[i]`/`nodes2d[i][k]` inside sort comparators
+    (indices supplied by `sort.Slice`, `k` guarded against `len(nodes2d[i])`); `stringsToNodes` (`nodes[i]`, `i` from
+    `range`); `mergeTerms` / `sortAndDedup` (loop-bounded indices); `parseToken` (dead branch); `readRegex`
+    (`i[0]`, `i[1]` of a non-nil match). -/
+def indexSites : List (Bytes × Nat) :=
+  (Census.partialOps.filter (fun p => !Nat.beq p.2.2.1 0)).map (fun p => (p.2.1, p.2.2.1))
+
+/-- … and the functions that contain a slice expression (all guarded: `exp.index > 1`, `hasMore()`, `HasSuffix`). -/
+def sliceSites : List (Bytes × Nat) :=
+  (Census.partialOps.filter (fun p => !Nat.beq p.2.2.2.1 0)).map (fun p => (p.2.1, p.2.2.2.1))
+
+def typeAssertsAndDivisions : Nat :=
+  (Census.partialOps.map (fun p => p.2.2.2.2.2.1 + p.2.2.2.2.2.2)).sum
+
+def beqSites : List (Bytes × Nat) → List (Bytes × Nat) → Bool
+  | [], [] => true
+  | a :: as, b :: bs => beqBytes a.1 b.1 && Nat.beq a.2 b.2 && beqSites as bs
+  | _, _ => false
+
+/-- the index expressions of the source are exactly the ones accounted for above: a new `x[i]` anywhere in the package
+    breaks this obligation until it has been looked at -/
+theorem index_sites_accounted : beqSites indexSites
+    [([99,111,109,112,97,114,101,71,84], 2), ([99,111,109,112,97,114,101,76,84], 2), ([99,111,109,112,97,114,101,69,81], 2),
+     ([115,97,109,101,76,105,99,101,110,115,101,71,114,111,117,112], 2),
+     ([114,101,109,111,118,101,68,117,112,108,105,99,97,116,101,83,116,114,105,110,103,115], 2),
+     ([115,111,114,116,76,105,99,101,110,115,101,115], 4),
+     ([116,111,107,101,110,83,116,114,101,97,109,46,112,101,101,107], 1),
+     ([115,116,114,105,110,103,115,84,111,78,111,100,101,115], 1),
+     ([109,101,114,103,101,84,101,114,109,115], 1),
+     ([115,111,114,116,65,110,100,68,101,100,117,112], 4),
+     ([100,101,101,112,83,111,114,116], 7),
+     ([101,120,112,114,101,115,115,105,111,110,83,116,114,101,97,109,46,112,97,114,115,101,84,111,107,101,110], 1),
+     ([101,120,112,114,101,115,115,105,111,110,83,116,114,101,97,109,46,114,101,97,100,82,101,103,101,120], 4)] = true := by
+  decide +kernel
+
+/-- likewise the slice expressions: simplifyLicense (after HasSuffix), sortAndDedup (`nodes[:prev]`, prev ≤ len),
+    readRegex (×2, `[exp.index:]` with index ≤ len, `[0:i[1]]` of a match), read (`[exp.index:]`),
+    readOperator (`[index-2:index-1]` after `index > 1`), normalizeLicense (×6, after HasSuffix / hasMore) -/
+theorem slice_sites_accounted : beqSites sliceSites
+    [([115,105,109,112,108,105,102,121,76,105,99,101,110,115,101], 1),
+     ([115,111,114,116,65,110,100,68,101,100,117,112], 1),
+     ([101,120,112,114,101,115,115,105,111,110,83,116,114,101,97,109,46,114,101,97,100,82,101,103,101,120], 2),
+     ([101,120,112,114,101,115,115,105,111,110,83,116,114,101,97,109,46,114,101,97,100], 1),
+     ([101,120,112,114,101,115,115,105,111,110,83,116,114,101,97,109,46,114,101,97,100,79,112,101,114,97,116,111,114], 1),
+     ([101,120,112,114,101,115,115,105,111,110,83,116,114,101,97,109,46,110,111,114,109,97,108,105,122,101,76,105,99,101,110,115,101], 6)] = true := by
+  decide +kernel
+
+/-- no type assertion, no division or remainder anywhere in the package -/
+theorem no_type_assertions_or_divisions : typeAssertsAndDivisions = 0 := by decide +kernel
 
 end Spdx.C03
